@@ -133,6 +133,12 @@ def ir_cases(rng, tier, only_wf=True):
                         cases.append("1 2 | %s" % " ".join(map(str, method_row(recv, im, ret, 2, args))))
     rows = [method_row(0, 0, 15, 2, []), method_row(1, 0, 6, 3, [(0, 2)]), method_row(0, 2, 11, 2, []), method_row(0, 2, 15, 4, []), method_row(1, 1, 7, 0, []), method_row(0, 0, 12, 2, [])]
     cases.append("1 2 | %s" % " ; ".join(" ".join(map(str, r)) for r in rows))
+    # LARGE traits (more than two dozen methods), with and without an associated type declared after the methods (header field 4): one slot per method, in
+    # declaration order, however the generator walks the items
+    for nm in (25, 26, 33, 40):
+        for assoc in (0, 1):
+            rows = [method_row(k % 2, 0, 1 if k % 3 else 0, 2, [(0, 2)] if k % 2 else []) for k in range(nm)]
+            cases.append("1 0 0 %d | %s" % (assoc, " ; ".join(" ".join(map(str, r)) for r in rows)))
     # #[skip_func] methods (receiver field +32) are not exported: no slot, no wrapper, no forwarding method, and the slots after them do not shift;
     # methods declared `extern "C" fn` (receiver field +64) get the same glue as any other (arguments wrapped, entries extern "C")
     for pos in range(3):
@@ -256,7 +262,7 @@ def grp_cases(rng, tier, mid=4):
 
 # ------------------------------------------------------------------------------------------ behavioural
 REF_OPS = [[0, 5, -3], [6, 2], [6, -1], [6, 5], [7, 4], [7, 3], [7, -1], [8, 200], [8, 7], [9, 7], [10, 0], [10, 1], [10, 3], [10, 2, 1, 5], [10, 1, 2, 5], [10, 3, 1, 8], [10, 0, 1, 4], [10, 9, 2, 3], [10, 2, 0, 6], [10, 1, 1, 0], [10, 0, 0, 5, 1], [10, 1, 1, 9, 1], [10, 0, 2, 40, 1], [10, 0, 0, 17, 2], [10, 1, 2, 33, 2], [10, 0, 1, 4, 1], [10, 1, 0, 63, 1], [12, 255, 70000, -5], [13], [14],
-           [16, 5], [16, -2], [18, 4], [18, -9], [19, 0], [19, 1], [19, 13], [19, -7], [19, 65535], [20, 3], [20, -1], [21, 9], [35, 0], [35, 1], [35, 2, 0], [35, 2, 5], [36, 1, 0], [36, 2, 255], [36, 0, -1], [36, 1, -1], [37, -1], [37, 255, 7, -3], [37, 0, 0, 0], [38, 3], [38, 4], [38, 0], [39, 0], [39, 1], [39, 2], [39, -7], [31, 97, 0], [31, 955, 1], [31, 8364, 0], [31, 128512, 0], [31, 255, 1], [31, 1114111, 1], [32, -5, 77, -3], [32, 2 ** 62, -1, 127], [33, 1078530011, 4614253070214989087], [33, 2143289344, 0], [34, 300, 8364], [34, 65535, 97], [26, 0], [26, 1], [26, 5], [26, 13], [26, 65536], [26, -7], [27, 0], [27, -1], [27, -22], [27, 70000], [27, 2147483647], [27, -2147483648], [28, 4], [28, -21], [28, 70001],
+           [16, 5], [16, -2], [18, 4], [18, -9], [19, 0], [19, 1], [19, 13], [19, -7], [19, 65535], [19, 65536], [19, 65538], [19, 65541], [19, 131074], [19, 2147483647], [19, -2147483648], [20, 3], [20, -1], [21, 9], [35, 0], [35, 1], [35, 2, 0], [35, 2, 5], [36, 1, 0], [36, 2, 255], [36, 0, -1], [36, 1, -1], [37, -1], [37, 255, 7, -3], [37, 0, 0, 0], [38, 3], [38, 4], [38, 0], [39, 0], [39, 1], [39, 2], [39, -7], [31, 97, 0], [31, 955, 1], [31, 8364, 0], [31, 128512, 0], [31, 255, 1], [31, 1114111, 1], [32, -5, 77, -3], [32, 2 ** 62, -1, 127], [33, 1078530011, 4614253070214989087], [33, 2143289344, 0], [34, 300, 8364], [34, 65535, 97], [26, 0], [26, 1], [26, 5], [26, 13], [26, 65536], [26, -7], [27, 0], [27, -1], [27, -22], [27, 70000], [27, 2147483647], [27, -2147483648], [28, 4], [28, -21], [28, 70001],
            [22, 4], [22, 7], [23, 21], [24], [25, 2], [25, 0]]
 MUT_OPS = [[1, 5], [1, 0], [1, 24], [2, 3], [2, 0], [3, 4], [3, 0], [4, 6], [4, 0], [5, 0], [5, 1], [5, 2], [5, 3], [5, 4], [5, 5], [5, 6], [5, 7], [5, 8], [11, 0], [11, 4], [15], [17, 2], [17, 3], [40, 0], [40, 2], [40, 5], [40, 6], [40, 7], [41, 0], [41, 2], [41, 3], [41, 5], [41, 8], [42, 1], [42, 2], [42, 3], [42, 7], [29, 0, 5], [29, 1, 5], [29, 2, 8], [29, 1, 0], [30, 0], [30, 1], [30, 2], [29, 2, 3], [30, 1]]
 
@@ -351,6 +357,46 @@ def assoc_cases(rng, tier, with_alias=True):
             ops.append({0: [0, i], 1: [1], 2: [2, i], 3: [3, i, v], 4: [4, v], 5: [5, i, v], 6: [6, i], 7: [7, i, v], 8: [8, i, v], 9: [9, i, j]}[c])
         cases.append("111 %d | %s" % (rng.below(3), " ; ".join(" ".join(map(str, o)) for o in ops)))
     return cases, {"wrapped_associated_type_histories": len(cases)}
+
+
+BYREF_PROBE = r"""//! C06 probe: a by-reference object must not accept a consuming call — if this program COMPILES, the object moves the borrowed value out.
+use cglue::prelude::v1::*;
+use std::sync::atomic::{AtomicUsize, Ordering::SeqCst};
+static DROPS: AtomicUsize = AtomicUsize::new(0);
+#[cglue_trait]
+pub trait Fin { fn peek(&self) -> u64; fn fin(self) -> u64; }
+pub struct Noisy(Box<u64>);
+impl Drop for Noisy { fn drop(&mut self) { DROPS.fetch_add(1, SeqCst); } }
+impl Fin for Noisy { fn peek(&self) -> u64 { *self.0 } fn fin(self) -> u64 { *self.0 + 1 } }
+fn main() {
+    let mut owner = std::mem::ManuallyDrop::new(Noisy(Box::new(7)));
+    let r = { let obj = trait_obj!(&mut *owner as Fin); obj.fin() };
+    println!("{} {}", r, DROPS.load(SeqCst));      // result of the by-value call, destructor runs while the owner still holds the value
+}
+"""
+
+
+def byref_consume_probe():
+    """'206 |': returns the harness-format line.  1 = the by-value call on a `&mut` object is rejected at compile time (as it must be)."""
+    import shutil
+    d = os.path.join(vlib.CACHE, "byref_probe")
+    os.makedirs(os.path.join(d, "src"), exist_ok=True)
+    open(os.path.join(d, "src", "main.rs"), "w").write(BYREF_PROBE)
+    open(os.path.join(d, "Cargo.toml"), "w").write('[package]\nname = "byref_probe"\nversion = "0.0.0"\nedition = "2018"\n\n[workspace]\n\n[dependencies]\ncglue = { path = "/repo/cglue" }\n')
+    try:
+        shutil.copy(os.path.join(vlib.REPO, "Cargo.lock"), os.path.join(d, "Cargo.lock"))
+    except OSError:
+        pass
+    rc, o, e, _ = vlib.sh("timeout 600 cargo build --offline", cwd=d, timeout=630)
+    if rc != 0:
+        errs = [l for l in e.split("\n") if l.startswith("error[")]
+        if errs:
+            return "1 # fails=-"
+        return "-9 # fails=probe_does_not_build_for_an_unrelated_reason:%s" % "_".join(e.strip().split("\n")[-3:]).replace(" ", "_")[:200]
+    rc, o, e, _ = vlib.sh(os.path.join(d, "target", "debug", "byref_probe"), cwd=d, timeout=60)
+    t = (o.split() + ["?", "?"])[:2]
+    return "0 # fails=a_by-reference_object_(`trait_obj!(&mut_x_as_Fin)`)_accepts_the_by-value_call_`fin(self)`:_it_returned_%s_and_the_borrowed_value's_destructor_ran_%s_time(s)_while_its_owner_still_holds_it%s" % (
+        t[0], t[1], "" if rc == 0 else "_(the_program_then_died_with_status_%d)" % rc)
 
 
 def fwd_ir_cases(rng, tier):
